@@ -401,6 +401,107 @@ def crash_family(ctx, only=None):
         shutil.rmtree(work, ignore_errors=True)
 
 
+
+# ----------------------------------------------------------------------------------------------
+# blocks beyond the exact algorithms: what survives surely (real code only; the model has no counterpart)
+# ----------------------------------------------------------------------------------------------
+MC_SAMPLES = 150     # sweeps of `random_prob` in this plan (the code's default is 10 000; same function, fewer sweeps)
+
+
+def mc_history(ctx, n_ens, workers, steps, seed, label):
+    """n_ens >= 14, all plus paths valid up to the last ensemble with wire-fencing weights that differ from ensemble to ensemble: the idle
+    block is one non-row-constant block of more than 12 rows, so `inf_retis` takes its Monte-Carlo branch
+    (`random_prob`).  There P is an estimate (two calls differ), so nothing is compared with the Lean model; judged on
+    the real code alone: every P the sampler computes has idle column/row sums 1 and is 0 where W is 0 and on
+    busy rows/columns, and the C04 predicates hold on the files it writes."""
+    import contextlib
+    import copy
+    import io
+    import warnings
+    import numpy as np
+    rng = random.Random(label)
+    sim = T.Sim(ctx, n_ens, workers, steps, seed=seed, wf=True, eng_types=1, rng=rng)
+    R = sim.R
+    orig_rp, orig_ir = R.REPEX_state.random_prob, R.REPEX_state.inf_retis
+    seen = {"mc": 0, "calls": 0}
+
+    def fast_rp(self, arr, n=10_000):
+        # the sweeps draw from the scheduler stream (`self.rgen`, here the scripted generator of repex_tie, which
+        # only serves pick()'s requests): give them a seeded numpy generator of their own for the call
+        seen["mc"] += 1
+        saved = self.rgen
+        self.rgen = np.random.Generator(np.random.PCG64(1000 * seed + seen["mc"]))
+        try:
+            return orig_rp(self, arr, n=MC_SAMPLES)
+        finally:
+            self.rgen = saved
+
+    def checked_ir(self, input_mat, locks):
+        P = orig_ir(self, input_mat, locks)
+        seen["calls"] += 1
+        idle = [i for i in range(len(locks)) if not locks[i]]
+        Pf = np.asarray(P, dtype=float)
+        rep = {"history": label, "ctxseed": ctx.seed, "family": "mc", "params": {"mc": [n_ens, workers, steps, seed]}}
+        for i in range(len(locks)):
+            for c in range(len(locks)):
+                if Pf[i, c] != 0.0 and (input_mat[i, c] == 0 or i not in idle or c not in idle):
+                    ctx.fail("C04:mc:weight-where-none", f"P[{i},{c}] = {Pf[i, c]!r} with W = {input_mat[i, c]!r}, locks {list(locks)}", rep)
+                    return P
+        for c in idle:
+            if abs(Pf[:, c].sum() - 1.0) > 1e-9 or abs(Pf[c, :].sum() - 1.0) > 1e-9:
+                ctx.fail("C04:mc:column-sum", f"column/row {c}: sums {Pf[:, c].sum()!r} / {Pf[c, :].sum()!r}", rep)
+                return P
+        return P
+
+    snaps, inflight, error = [], [], None
+
+    def snap(tag):
+        d = sim.op_dump()
+        held = [(md["pin"], [(e, dd["pn_old"]) for e, dd in md["picked"].items()],
+                 {e: dict(dd["eng_idx"]) for e, dd in md["picked"].items()}, os.path.basename(md["w_folder"]))
+                for md in inflight]
+        snaps.append((tag, d, held))
+
+    R.REPEX_state.random_prob, R.REPEX_state.inf_retis = fast_rp, checked_ir
+    try:
+        with contextlib.redirect_stdout(io.StringIO()), warnings.catch_warnings():
+            warnings.simplefilter("ignore")          # the code prints "random #k" and divides by zero weights there
+            wts = [1, 2, 3, 5, 17]
+            def vec():          # a weight that changes from ensemble to ensemble, as compute_weight gives
+                return [rng.choice(wts) for _ in range(n_ens - 1)] + [0]
+            paths = [T.FakePath(0, (1.0,))] + [T.FakePath(i, vec()) for i in range(1, n_ens)]
+            sim.load_initial(paths)
+            snap("loaded")
+            base = {"mc_moves": sim.st.mc_moves, "interfaces": sim.st.interfaces, "cap": None}
+            while sim.op_initiate():
+                inflight.append(sim.op_prep(copy.deepcopy(base)))
+                snap("prep")
+            while sim.op_loop():
+                md = inflight.pop(rng.randrange(len(inflight)))
+                status = "ACC" if rng.random() < 0.6 else "REJ"
+                ws = []
+                for ens_num in md["picked"]:
+                    ws.append([1] if ens_num == -1 else vec())
+                md = sim.op_treat(md, status, ws)
+                snap("treat")
+                if sim.st.cstep + sim.st.workers <= sim.st.tsteps:
+                    inflight.append(sim.op_prep(md))
+                    snap("prep")
+    except Exception as e:  # noqa: BLE001
+        error = e
+    finally:
+        R.REPEX_state.random_prob, R.REPEX_state.inf_retis = orig_rp, orig_ir
+    sim.snaps, sim.error, sim.previous = snaps, error, []
+    sim.params = {"mc": [n_ens, workers, steps, seed]}
+    sim.close()
+    predicates(ctx, sim, label)
+    ctx.count(sum(1 for s_ in snaps if s_[0] == "treat"), history=f"n{n_ens}w{workers}+monte-carlo")
+    ctx.count(seen["calls"], mc="P-matrices-checked")
+    if seen["mc"]:
+        ctx.hit("monte-carlo-branch-of-inf_retis")
+    return sim, seen
+
+
 def one(ctx, params, with_model, outs):
     n_ens, workers, steps, seed, wf, et, acc = params[:7]
     restarts = tuple(params[7]) if len(params) > 7 and params[7] else ()
@@ -461,6 +562,26 @@ def run(ctx):
         one(ctx, p[:7], p[7] and ctx._driver_ok, outs)
     for p in rplans:
         one(ctx, p[:8], p[8] and ctx._driver_ok, outs)
+    # screen > 0: print_shooted / print_state (which touches the cached `_last_prob`) run inside treat_output;
+    # `Sim` takes the setting but run_history does not pass it on, so it is forced for these plans
+    sim_init = T.Sim.__init__
+
+    def screen_init(self, *a, **k):
+        k["screen"] = 1
+        sim_init(self, *a, **k)
+
+    T.Sim.__init__ = screen_init
+    try:
+        for (n_ens, w, rs) in ((3, 1, (6, 12)), (4, 2, (8,))) + (() if ctx.quick else ((5, 3, (5, 15)), (2, 1, ()))):
+            sim = one(ctx, (n_ens, w, 20, rng.randint(0, 9), bool(w % 2), 1, 0.7, rs), ctx._driver_ok, outs)
+            if sim.st.screen != 1:
+                ctx.fail("C04:harness:screen-not-set", "the screen plan ran with screen = 0", {"family": "screen"})
+            ctx.hit("screen=1")
+    finally:
+        T.Sim.__init__ = sim_init
+    # blocks > 12 that are not row-constant: inf_retis' Monte-Carlo branch (real code only)
+    for (n_ens, w, st) in ((15, 1, 6), (16, 3, 8)) + (() if ctx.quick else ((14, 2, 25), (18, 5, 25), (15, 1, 30))):
+        mc_history(ctx, n_ens, w, st, rng.randint(0, 9), f"mc n_ens={n_ens} workers={w} steps={st} ctxseed={ctx.seed}")
     if outs:
         # every segment starts with `init`, which resets the driver's state: one driver process for all of them
         answers = ctx.driver([l for sm, _ in outs for l in sm.lines])
@@ -475,6 +596,21 @@ def run(ctx):
             ctx.sample({"history": outs[0][1], "restart_frac_after_last_step": tr[-1][1]["_restart_frac"],
                         "data_rows": tr[-1][1]["rows"]})
     ctx.assumptions += [
+        "model-`prob` = code-`prob` only where C02 ties them: the idle block within C02's staircase family, every block "
+        "of at most 12 rows or row-constant.  Larger non-row-constant blocks go to `random_prob`, a Monte-Carlo estimate "
+        "drawn from the scheduler stream (two calls on the same W differ by 0.1): there the 'permanent ratio' clause of "
+        "recordFrac_adds_one_per_idle_column / step_adds_one_per_idle_column_reachable says nothing about the code; the "
+        "tie checks on the real code alone (n_ens 15-18, fewer sweeps, own generator for the sweeps) that every P has idle "
+        "row/column sums 1, is 0 where W is 0 and on busy slots, and that the C04 predicates hold on the files written",
+        "outcomes outside C02's staircase family (a wire-fencing weight 0 between two non-zero ones, produced by the real "
+        "calc_cv_vector for a path that jumps over a whole [lambda_i, cap) band) are not generated: there inf_retis fails "
+        "its own assertion while the model goes on (open finding C05:hole-weight-vector:prob-assertion); the theorems "
+        "with a matchability hypothesis only (conservation, treatOutput_conservation, recordFrac_adds_one_per_idle_column) "
+        "describe the code only together with model-prob = code-prob, i.e. inside the family (the *_reachable versions)",
+        "several workers: a restart from a restart file that records jobs in flight is covered at theorem level one "
+        "restart deep and on the model's row list (restart_inflight_conservation, midstep_restart_inflight_conservation); "
+        "on the file lines and for chains of such restarts (files_law_reachable asks for im.locked = []) it is tie-only "
+        "(disk family, workers 2-3, scripted path store)",
         "long-double accumulation compared with tolerance 1e-9 per step / 1e-7 on totals",
         "masked ('----') data-file entries are read as 0 (they are written only for zero fractions)",
         "restarts: stops inside treat_output (before/after/half-way every file effect of an accepted step, an accepted "
@@ -486,7 +622,7 @@ def run(ctx):
 
 def replay(ctx, obj):
     r = obj.get("replay", {})
-    if r.get("family") in ("disk", "fmt", "clean"):
+    if r.get("family") in ("disk", "fmt", "clean", "malformed"):
         from props import c04_disk
         c04_disk.replay_disk(ctx, r)
         for f in ctx.fails:
@@ -498,6 +634,13 @@ def replay(ctx, obj):
             crash_family(ctx, only=(r["spec"], r["k"], r["mode"]))
         else:
             crash_family(ctx, only=(r["spec"], -1, "before"))
+        for f in ctx.fails:
+            print("still fails:", f["signature"], f["what"])
+        return 1 if ctx.fails else 0
+    if isinstance(r.get("params"), dict) and "mc" in r["params"]:
+        ctx.seed = r.get("ctxseed", ctx.seed)
+        n_ens, w, st, seed = r["params"]["mc"]
+        mc_history(ctx, n_ens, w, st, seed, r.get("history") or f"mc n_ens={n_ens} workers={w} steps={st} ctxseed={ctx.seed}")
         for f in ctx.fails:
             print("still fails:", f["signature"], f["what"])
         return 1 if ctx.fails else 0
